@@ -88,6 +88,28 @@ package tree
 //@   ensures [lighter_side_or_product] result == ehash(e.ntaxleft, e.hashcodeleft, e.ntaxright, e.hashcoderight)
 //@   ensures [orientation_independent] result == ehash(e.ntaxright, e.hashcoderight, e.ntaxleft, e.hashcodeleft)
 
+// Split equality (property C04): two branches carry the same split exactly when their bitsets are equal or
+// complementary; SameBipartition additionally compares the (orientation independent) hash codes first
+//@ define ehashof(e *Edge) int = ehash(e.ntaxleft, e.hashcodeleft, e.ntaxright, e.hashcoderight)
+//@ func (*tree.Edge).HashEquals
+//@   requires e != nil && e.bitset != nil && itag(h) == typetag("*Edge") && iref(h) != 0
+//@   assigns nothing
+//@   ensures [equal_or_complementary_bitsets] result == eqorcompl(e.bitset, cast(iref(h), "*Edge").bitset)
+
+//@ func (*tree.Edge).SameBipartition
+//@   requires e != nil && e2 != nil && e.bitset != nil
+//@   assigns nothing
+//@   ensures [same_hash_code_and_equal_or_complementary_bitsets_whatever_the_orientation] result == (ehashof(e) == ehashof(e2) && eqorcompl(e.bitset, e2.bitset))
+
+//@ func (*tree.Edge).FindEdge
+//@   requires e != nil && e.right != nil && (forall k int :: {edges[k]} 0 <= k && k < len(edges) ==> edges[k] != nil && edges[k].right != nil)
+//@   allocates iface
+//@   assigns nothing
+//@   ensures [found_means_some_listed_branch_of_the_same_kind_carries_the_same_split] result1 == nil && result0 != nil ==> (exists k int :: 0 <= k && k < len(edges) && (len(e.right.neigh) == 1) == (len(edges[k].right.neigh) == 1) && ehashof(e) == ehashof(edges[k]) && eqorcompl(e.bitset, edges[k].bitset))
+//@   ensures [not_found_means_no_listed_branch_does] result1 == nil && result0 == nil ==> (forall k int :: {edges[k]} 0 <= k && k < len(edges) ==> !((len(e.right.neigh) == 1) == (len(edges[k].right.neigh) == 1) && ehashof(e) == ehashof(edges[k]) && eqorcompl(e.bitset, edges[k].bitset)))
+//@   loop 1
+//@     invariant [none_so_far] forall k int :: {edges[k]} 0 <= k && k <= rangeindex ==> !((len(e.right.neigh) == 1) == (len(edges[k].right.neigh) == 1) && ehashof(e) == ehashof(edges[k]) && eqorcompl(e.bitset, edges[k].bitset))
+
 // ---------------------------------------------------------------------------
 // Enumerations used by callers in other packages (thin contracts)
 // ---------------------------------------------------------------------------
@@ -284,6 +306,24 @@ package tree
 //@   call (*bytes.Buffer).WriteString@L3 [a_branch_comment_is_written_between_brackets_from_the_branch_s_own_list] a0 == newick && (a1 == "[" || a1 == "]" || (exists k int :: 0 <= k && k < len(n.br[i].comment) && a1 == n.br[i].comment[k]))
 //@   call strconv.FormatFloat [plain_decimal_shortest_representation_of_a_value_stored_on_the_branch] a1 == 102 && a2 == -1 && a3 == 64 && (a0 == n.br[i].support || a0 == n.br[i].pvalue || a0 == n.br[i].length)
 //@   call (*tree.Node).Newick [children_are_written_with_this_node_as_parent_into_the_same_buffer] a0 == child && a1 == n && a2 == newick && child != parent
+
+// ClearBitSets / clearBitSetsRecur (property C04): every branch below the starting node gets a bitset of its own,
+// created for the current number of indexed tips, and zeroed hash sums, before the walk descends through it
+//@ func (*tree.Tree).clearBitSetsRecur
+//@   flag noframe
+//@   requires t != nil && INV12() && (n != nil || t.root != nil)
+//@   call github.com/fredericlemoine/bitset.New [bitsets_are_as_wide_as_the_tip_index] a0 == ntip
+//@   call (*tree.Tree).clearBitSetsRecur [descends_to_the_child_with_the_same_width] a1 == child && a2 == n && a3 == ntip
+//@   call (*tree.Tree).clearBitSetsRecur [the_branch_has_just_been_given_a_bitset_of_its_own] freshiter(n.br[i].bitset)
+//@   call (*tree.Tree).clearBitSetsRecur [the_branch_hash_sums_are_zeroed] n.br[i].hashcodeleft == 0 && n.br[i].hashcoderight == 0
+//@   loop 1
+//@     invariant [still_well_formed] t != nil && n != nil && INV12()
+
+//@ func (*tree.Tree).ClearBitSets
+//@   flag noframe
+//@   requires t != nil && INV12() && t.root != nil
+//@   call (*tree.Tree).clearBitSetsRecur [from_the_root_with_the_size_of_the_tip_index] a1 == nil && a2 == nil && a3 == len(t.tipIndex) && a3 != 0
+//@   ensures [an_empty_tip_index_is_an_error] len(t.tipIndex) == 0 ==> result != nil
 
 // ParentEdge: the unique branch of n that points into n
 //@ func (*tree.Node).ParentEdge
